@@ -83,4 +83,14 @@ example :
       (NeoxL.mergedVal 2 (fun _ => ["a", "b"]) (fun n => if n = "a" then 1 else 0) (fun r n => (n, r)))
       (fun _ n => (n, 99)) 0 "a" = ("a", 1) := by decide
 
+/-- F2 at the value level (C18, model-parallel degree 2): ranks 0 and 1 are model-parallel peers holding the replicated
+    layer `a`; rank 0 is its factor worker on both. After a load rank 0 holds the saved value, rank 1 keeps its fresh one —
+    the two copies of a replicated factor differ, which is what makes the resumed run deviate (finding F2) -/
+example :
+    NeoxL.loadVal (fun _ => ["a"]) (fun _ _ => 0)
+      (NeoxL.mergedVal 2 (fun _ => ["a"]) (fun _ => 0) (fun r n => (n, r))) (fun r n => (n, 100 + r)) 0 "a" = ("a", 0) ∧
+    NeoxL.loadVal (fun _ => ["a"]) (fun _ _ => 0)
+      (NeoxL.mergedVal 2 (fun _ => ["a"]) (fun _ => 0) (fun r n => (n, r))) (fun r n => (n, 100 + r)) 1 "a" = ("a", 101) := by
+  decide
+
 end KV.Witness
